@@ -42,6 +42,16 @@ struct GenCtx {
     names: Vec<String>,
 }
 
+/// name of the output file of a file-writing action: a new one, or (1 in 3) one that an earlier
+/// action of the same expression already writes to - their records then share the file, in evaluation order
+fn out_file(g: &mut Gen, c: &mut GenCtx) -> String {
+    if c.files > 0 && g.chance(1, 3) {
+        return format!("c/out{}", g.usize_in(1, c.files));
+    }
+    c.files += 1;
+    format!("c/out{}", c.files)
+}
+
 fn gen_prim(g: &mut Gen, c: &mut GenCtx) -> Prim {
     c.prims += 1;
     match g.weighted(&[3, 3, 5, 2, 1, 4, 1, 4, 1, 1, 1, 1, 2, 2, 2]) {
@@ -76,19 +86,12 @@ fn gen_prim(g: &mut Gen, c: &mut GenCtx) -> Prim {
             c.labels += 1;
             Prim::Printf(format!("k{}", c.labels))
         }
-        8 => {
-            c.files += 1;
-            Prim::Fprint(format!("c/out{}", c.files))
-        }
+        8 => Prim::Fprint(out_file(g, c)),
         9 => {
-            c.files += 1;
             c.labels += 1;
-            Prim::Fprintf(format!("c/out{}", c.files), format!("k{}", c.labels))
+            Prim::Fprintf(out_file(g, c), format!("k{}", c.labels))
         }
-        10 => {
-            c.files += 1;
-            Prim::Fprint0(format!("c/out{}", c.files))
-        }
+        10 => Prim::Fprint0(out_file(g, c)),
         11 => {
             match g.below(6) {
                 0 | 1 => Prim::Exec(g.bool()),
